@@ -38,6 +38,8 @@ pub fn compute_coset_elements(
     let mut coset_x_inv = Felt::ZERO;
     let coset_size: usize = coset_size.to_biguint().try_into().unwrap();
     for index in 0..coset_size {
+        #[cfg(swiftness_verif)]
+        swiftness_transcript::verif::tick("fri.coset", 1);
         let q = queries.first();
         if q.is_some() && q.unwrap().index == coset_start_index + Felt::from(index) {
             let query: Vec<FriLayerQuery> = queries.drain(0..1).collect();
